@@ -25,6 +25,7 @@ def _init(modname, fname):
     global _FN, _COV
     if os.environ.get('VT_COVERAGE'):
         # developer tool (tools/anchor_coverage.py): line coverage of phylib under the generated cases
+        os.environ.setdefault('COVERAGE_CORE', 'sysmon')   # sys.monitoring: not lost when a library resets sys.settrace
         import coverage
         repo = os.environ.get('PHYLIB_REPO') or '/repo'
         _COV = coverage.Coverage(data_file=os.path.join(os.environ['VT_COVERAGE'], 'cov'), data_suffix=True,
